@@ -35,8 +35,15 @@ fn voicing(engine0: &Engine, rng: &mut Rng, corpus: &Corpus, evs: &mut Vec<Value
     let lines = corpus.utterance(rng, nl);
     let labels = parse_all(&lines);
     let mut engine = engine0.clone();
-    if rng.chance(0.5) {
+    // the voicing law holds under every condition: speed, GV weights, half tone, alpha, beta, volume ... are varied too
+    // (a half tone must never turn the "no F0" marker of an unvoiced frame into a pitch)
+    if rng.chance(0.7) {
+        random_condition(&mut engine, rng, false);
+    } else if rng.chance(0.5) {
         engine.condition.set_speed(rng.uniform(0.5, 2.0));
+    }
+    if rng.chance(0.5) {
+        engine.condition.set_additional_half_tone(*rng.pick(&[-24.0, -5.5, 0.125, 3.0, 24.0]));
     }
     let m = Models::new(&labels, &engine.voices, engine.condition.get_interporation_weight());
     let msd: Vec<f64> = m.model_stream(1).stream.iter().map(|(_, w)| *w).collect();
